@@ -934,10 +934,29 @@ def _fillna():
         a_id = pick_arr(w, rng, lambda a: a.dtype.kind in "fi")
         if a_id is None:
             return None
-        return {"a": a_id, "fn": rng.choice(["fillna", "setna"]), "value": rng.choice([-9, 0, 3, 2.5]), "out": out(w)}
+        st = {"a": a_id, "fn": rng.choice(["fillna", "setna"]), "value": rng.choice([-9, 0, 3, 2.5]), "out": out(w)}
+        if st["fn"] == "setna" and rng.random() < 0.5:
+            # the documented sequence / boolean forms: a.setna([v1, v2]), a.setna(a > t), a.setna([a > t, v]), a.setna([v, a > t])
+            st["form"] = rng.choice(["values", "mask", "mask_first", "mask_last"])
+            st["thr"] = rng.choice([0, 2, 5])
+        return st
 
     def run(w, s):
-        return getattr(w.arr(s["a"]), s["fn"])(s["value"])
+        a = w.arr(s["a"])
+        form = s.get("form")
+        if not form:
+            return getattr(a, s["fn"])(s["value"])
+        if form == "values":
+            return a.setna([s["value"], s["thr"]])
+        mask = a > s["thr"]
+        before = V.snap(mask)
+        arg = mask if form == "mask" else ([mask, s["value"]] if form == "mask_first" else [s["value"], mask])
+        try:
+            return a.setna(arg)
+        finally:
+            if "C15" in w.props and V.snap(mask) != before:
+                raise Violation("C15", "operand_changed", "a.setna(%s) changed the boolean array it was given: %s" % (
+                    form, V.describe_snap_diff(before, V.snap(mask))))
     return gen, run
 
 
